@@ -49,6 +49,7 @@ type mModel struct {
 	Inits   []mInit  `json:"inits"`
 	Opset   int64    `json:"opset"`
 	Unnamed bool     `json:"unnamed"` // nodes carry no name (names are optional in ONNX)
+	OutInfo []mInput `json:"outinfo"` // type and shape annotations of graph outputs (documentation: Run does not enforce them)
 }
 
 // mRef re-uses a tensor object of an earlier call: its input `name` (kind "in") or its output `name` (kind "out").
@@ -225,7 +226,22 @@ func buildModel(m mModel) ([]byte, error) {
 		g.Initializer = append(g.Initializer, tp)
 	}
 	for _, o := range m.Outputs {
-		g.Output = append(g.Output, &onnx.ValueInfoProto{Name: o})
+		vi := &onnx.ValueInfoProto{Name: o}
+		for _, oi := range m.OutInfo {
+			if oi.Name == o {
+				dims := make([]DimSpec, len(oi.Dims))
+				for i, d := range oi.Dims {
+					switch d.Kind {
+					case "fixed":
+						dims[i] = DimSpec{Size: d.Size}
+					case "sym":
+						dims[i] = DimSpec{Param: fmt.Sprintf("o%d", i)}
+					}
+				}
+				vi = mkValueInfo(o, oi.Dt, dims)
+			}
+		}
+		g.Output = append(g.Output, vi)
 	}
 	opset := m.Opset
 	if opset == 0 {
